@@ -336,6 +336,21 @@ func enumerate(cfg enumCfg, h *harness, disc *discovery) []group {
 			}
 		}
 	}
+	// L5n: built-ins that iterate the elements of their argument, with the
+	// collection as such an element, of every length 1..3 (a "pair" of the
+	// wrong length is the error exit of dict(pairs) and d.update(pairs))
+	for _, d := range disc.Nested {
+		for _, kind := range kinds {
+			for _, fam := range []string{famInt, famStr} {
+				for nn := 1; nn <= 3; nn++ {
+					for _, nest := range []string{"N1", "N2"} {
+						gs = append(gs, group{Level: "L5-builtin", Exits: []string{"exhaust"},
+							Case: Case{Kind: kind, Fam: fam, N: nn, Cons: "call:" + d.Tmpl, Tmpl: "r = " + d.Tmpl, Nest: nest, Site: "none", Tag: "locked", Mut: defMut(kind, fam)}})
+					}
+				}
+			}
+		}
+	}
 	// L6: operators / receiver methods found to iterate the collection
 	for _, d := range disc.Ops {
 		fam := bestFamily(h, d.Kind, n, d.Tmpl)
